@@ -62,7 +62,10 @@ type Call struct {
 	// NewDefaultMT (sequential cases): the caller sets Runtime.DefaultMediaType to this value before the call; it holds
 	// for this and the later calls. (r6)
 	NewDefaultMT string `json:"new_default_mt,omitempty"`
-	def          string // the default media type in force when the call is made (set by Check)
+	// OpProduces: the operation's ProducesMediaTypes (what the request's Accept header is made of). They say what the
+	// caller would like to get; which consumer reads the response is decided by the response. (r7)
+	OpProduces []string `json:"op_produces,omitempty"`
+	def        string   // the default media type in force when the call is made (set by Check)
 }
 
 // Case is one Runtime and the calls made on it.
@@ -79,6 +82,9 @@ type Case struct {
 	// InPlace: the consumers are registered on the map client.New returned (rt.Consumers[k] = c, delete(rt.Consumers, k))
 	// instead of on a map of the caller's own; a Runtime created afterwards still comes with the stock consumers. (r6)
 	InPlace bool `json:"in_place,omitempty"`
+	// Again (sequential cases): after the calls, the very operation values that carried no client of their own are
+	// submitted once more, through a second Runtime that has its own client: they go out through that one. (r7)
+	Again bool `json:"again,omitempty"`
 }
 
 // stockConsumers is what a Runtime fresh from client.New offers, recorded before any case ran.
@@ -403,12 +409,13 @@ func Check(c Case) *kit.Violation {
 
 	racesBefore := raceErrors()
 	var bareMu sync.Mutex
+	built := make([]*runtime.ClientOperation, len(c.Calls))
 
 	submit := func(i int) {
 		call, tok, rec := &c.Calls[i], toks[i], e.recs[toks[i]]
 		// the request side names a media type with a producer, so that an unregistered DefaultMediaType (which
 		// the response side falls back to) does not fail the construction of the request
-		op := &runtime.ClientOperation{ID: tok, Method: call.Method, PathPattern: "/c13", ConsumesMediaTypes: []string{runtime.JSONMime},
+		op := &runtime.ClientOperation{ID: tok, Method: call.Method, PathPattern: "/c13", ConsumesMediaTypes: []string{runtime.JSONMime}, ProducesMediaTypes: call.OpProduces,
 			Params: runtime.ClientRequestWriterFunc(func(req runtime.ClientRequest, _ strfmt.Registry) error {
 				if err := req.SetQueryParam("tok", tok); err != nil {
 					return err
@@ -441,6 +448,7 @@ func Check(c Case) *kit.Violation {
 			}
 		}
 		op.Context = newCtx(call.OpCtx, "operation-context")
+		built[i] = op
 		e.hist.logf(i, "call %d: Submit tok=%q", i, tok)
 		rec.panicked = kit.Guard("Runtime.Submit", func() { rec.res, rec.err = rt.Submit(op) })
 		e.hist.logf(i, "call %d: Submit returned result=%v err=%v", i, rec.res, rec.err)
@@ -510,6 +518,26 @@ func Check(c Case) *kit.Violation {
 		if code != rec.code || msg != rec.msg || tokHdr != toks[i] {
 			return kit.Failf("KEPT-RESPONSE call %d of %d: the response object its reader kept now reports status %d %q and token header %q; when it was read it reported %d %q and belongs to token %q\nhistory:\n%s",
 				i, len(c.Calls), code, msg, tokHdr, rec.code, rec.msg, toks[i], e.hist)
+		}
+	}
+	if c.Again && !c.Concurrent {
+		rt2 := client.NewWithClient("second.test", "/", []string{"http"}, &http.Client{Transport: &transport{"second-runtime-client", e}})
+		rt2.Consumers = rt.Consumers
+		rt2.DefaultMediaType = rt.DefaultMediaType
+		rt2.Context = context.Background()
+		for i, op := range built {
+			if op == nil || c.Calls[i].OpClient {
+				continue
+			}
+			rec := &record{tok: toks[i], got: map[string]headerObs{}}
+			e.recs[toks[i]] = rec
+			op.Context = nil
+			if v := kit.Guard("Runtime.Submit (second Runtime, same operation value)", func() { _, _ = rt2.Submit(op) }); v != nil {
+				return v
+			}
+			if len(rec.via) != 1 || rec.via[0] != "second-runtime-client" {
+				return kit.Failf("SECOND-RUNTIME call %d of %d: the operation value (no client of its own) was submitted to a second Runtime that has its own client; its request went out through %q, want [second-runtime-client]\nhistory:\n%s", i, len(c.Calls), rec.via, e.hist)
+			}
 		}
 	}
 	for i, hc := range bareClients {
